@@ -663,7 +663,10 @@ func peakRateSuite() hlib.Suite {
 		for _, sd := range []string{"0s", "1ns", "1ms"} {
 			for _, extra := range [][]string{nil, {"peak-rate", "5/s"}, {"volume", "0"}, {"repeat", "1s", "iteration-frequency", "1s"},
 				// ticks further apart than the window repeats
-				{"repeat", "1s", "iteration-frequency", "2s"}, {"repeat", "10s", "iteration-frequency", "30s", "standard-deviation", "5s"}, {"repeat", "1m", "iteration-frequency", "1m1s", "standard-deviation", "10s"}} {
+				{"repeat", "1s", "iteration-frequency", "2s"}, {"repeat", "1s", "iteration-frequency", "2s", "standard-deviation", "2h"},
+				{"volume", "1000", "repeat", "10s", "iteration-frequency", "30s", "peak", "5s", "standard-deviation", "2s"},
+				{"volume", "100000", "repeat", "1m", "iteration-frequency", "1m1s", "peak", "30s", "standard-deviation", "20s"},
+				{"volume", "1000", "repeat", "10s", "iteration-frequency", "15s", "peak", "5s", "standard-deviation", "5s", "weights", "1,2,3"}} {
 				r.Eval()
 				flags := map[string]string{"standard-deviation": sd, "distribution": "none", "jitter": "0"}
 				for i := 0; i+1 < len(extra); i += 2 {
@@ -676,7 +679,7 @@ func peakRateSuite() hlib.Suite {
 					r.Distinct("rejected sd=" + sd)
 					continue
 				}
-				for k := 0; k < 5; k++ {
+				for k := 0; k < 65; k++ { // every second of more than a minute: every position in the short windows
 					var got int
 					if p, pv := hlib.Catch(func() { got = tr.DryRun(time.Date(2024, 1, 1, 14, 0, k, 0, time.UTC)) }); p {
 						r.Fail("C14/gaussian-boundary-panics", "sd="+sd, fmt.Sprint(pv), input)
